@@ -1,36 +1,23 @@
 (* C06 — M refines R on every call free of kind conflicts, and balances its handles. *)
 From Coq Require Import List ZArith Bool Lia.
 Import ListNotations.
-From GU Require Import C06.Model C06.Proofs C06.Vfs.
+From GU Require Import C06.Model C06.Proofs C06.ProofsWf C06.Vfs C06.ProofsVfsRm C06.ProofsVfsCopy.
 Local Open Scope Z_scope.
 
-Lemma add_dir_id t q : exists_ t q = true -> add_dir t q = t.
-Proof. unfold add_dir. now intros ->. Qed.
-
-Lemma fold_add_dir_id ds : forall t, (forall q, In q ds -> exists_ t q = true) -> fold_left add_dir ds t = t.
-Proof.
-  induction ds as [|d ds IH]; intros t H; simpl; auto.
-  rewrite add_dir_id by (apply H; now left). apply IH. intros q Hq. apply H. now right.
-Qed.
-
-(* mkdir -p of something that exists in a well-formed tree changes nothing *)
-Lemma mkdirp_exists_id t p : wf t -> exists_ t p = true -> mkdirp t p = t.
-Proof.
-  intros W H. unfold mkdirp. apply fold_add_dir_id. intros q Hq.
-  destruct p as [|a p]; [contradiction|].
-  unfold exists_ in H. rewrite lookup_nonroot in H by discriminate.
-  destruct (find_entry t (a :: p)) eqn:E; [|discriminate]. eapply W; eauto.
-Qed.
-
-Lemma filter_filter_same {A} (f : A -> bool) l : filter f (filter f l) = filter f l.
-Proof. induction l as [|x l IH]; simpl; auto. destruct (f x) eqn:E; simpl; rewrite ?E, IH; auto. Qed.
-
-Lemma set_file_twice t p c c' : set_file (set_file t p c) p c' = set_file t p c'.
-Proof.
-  unfold set_file. rewrite filter_app, filter_filter_same. simpl. rewrite path_eqb_refl. simpl. now rewrite app_nil_r.
-Qed.
-
 Ltac inv H := inversion H; subst; clear H.
+
+Local Arguments m_rm : simpl never.
+Local Arguments m_clean : simpl never.
+Local Arguments rm_fuel : simpl never.
+Local Arguments r_copy : simpl never.
+Local Arguments r_copytofile : simpl never.
+Local Arguments r_copytodir : simpl never.
+Local Arguments r_move : simpl never.
+Local Arguments m_copy : simpl never.
+Local Arguments m_copytofile : simpl never.
+Local Arguments m_copytodir : simpl never.
+Local Arguments m_move : simpl never.
+Local Arguments m_mkdir : simpl never.
 
 Lemma m_refines_r_l t c m r t' :
   wf t -> m_exec t c = Some m -> exec t c = Out r t' -> m_r m = r /\ m_t m = t'.
@@ -62,6 +49,12 @@ Proof.
     destruct (dir_arg_conflict t p) eqn:C; [discriminate|]. unfold is_dir in Hr.
     unfold dir_arg_conflict, is_file in C.
     destruct (lookup t p) as [[c|]|] eqn:L; simpl; inv Hr; try (split; reflexivity).
+  - (* subdirs *) inv Hm. unfold m_subdirs, b_stat, b_readdirnames.
+    destruct (dir_arg_conflict t p) eqn:C; [discriminate|]. unfold is_dir in Hr.
+    unfold dir_arg_conflict, is_file in C.
+    destruct (lookup t p) as [[c|]|] eqn:L; simpl; inv Hr; try (split; reflexivity).
+    + rewrite orb_true_r in C. discriminate.
+    + split; [|reflexivity]. f_equal. f_equal. apply filter_ext. intros n. apply andb_comm.
   - (* exists *) unfold m_exists, b_stat in Hm. destruct (arg_conflict t p tr); [discriminate|]. inv Hr.
     unfold exists_. destruct (lookup t' p) as [[c|]|]; inv Hm; split; reflexivity.
   - (* isfile *) unfold m_isfile, m_exists, b_stat in Hm. destruct (arg_conflict t p tr); [discriminate|]. inv Hr.
@@ -74,6 +67,28 @@ Proof.
     destruct (through_file t p || is_dir t p || tr && is_file t p) eqn:C; [discriminate|].
     destruct (lookup t p) as [[c|]|] eqn:L; inv Hr; try (split; reflexivity).
     apply orb_false_iff in C as [C _]. apply orb_false_iff in C as [_ C]. unfold is_dir in C. rewrite L in C. discriminate.
+  - (* rm *) destruct p as [|a p]; [discriminate|].
+    destruct (m_rm_refines t (a :: p) W ltac:(discriminate)) as [h E]. rewrite E in Hm. simpl in Hm. inv Hm.
+    destruct (arg_conflict t (a :: p) tr); inv Hr. split; reflexivity.
+  - (* clean *) destruct (dir_arg_conflict t p) eqn:C; [discriminate|]. inv Hr.
+    destruct (m_clean_refines t p W C) as [h E]. rewrite E in Hm. simpl in Hm. inv Hm. split; reflexivity.
+  - (* copy of a file *) destruct q as [|d dtr]; [discriminate|]. destruct (is_dir_b t p) eqn:Sd; [discriminate|].
+    unfold rm_fuel in Hm. destruct (m_copy_file_refines t p tr d dtr r t' (length t) W Sd Hr) as [h E].
+    rewrite E in Hm. simpl in Hm. inv Hm. split; reflexivity.
+  - (* copytofile *) destruct q as [|d dtr]; [discriminate|].
+    unfold rm_fuel in Hm. destruct (m_copytofile_refines t p tr d dtr r t' (length t) W Hr) as [h E].
+    rewrite E in Hm. simpl in Hm. inv Hm. split; reflexivity.
+  - (* copytodir of a file *) destruct q as [|d dtr]; [discriminate|].
+    destruct (is_dir_b (m_t (m_mkdir t d)) p) eqn:Sd; [discriminate|].
+    assert (T1 : m_t (m_mkdir t d) = mkdirp t d).
+    { unfold r_copytodir in Hr. destruct (through_file t d) eqn:Tf; [discriminate|]. destruct (is_file t d) eqn:Nf; [discriminate|].
+      destruct (m_mkdir3_ok t d W Tf Nf) as [h1 E]. unfold m_mkdir3 in E. now inversion E. }
+    rewrite T1 in Sd. unfold rm_fuel in Hm.
+    destruct (m_copytodir_file_refines t p tr d dtr r t' (length (m_t (m_mkdir t d))) W Sd Hr) as [h E].
+    rewrite E in Hm. simpl in Hm. inv Hm. split; reflexivity.
+  - (* move *) destruct p as [|n s]; [discriminate|]. destruct q as [|d dtr]; [discriminate|].
+    unfold rm_fuel in Hm. destruct (m_move_refines t n s tr d dtr r t' (length t) W Hr) as [h E].
+    rewrite E in Hm. simpl in Hm. inv Hm. split; reflexivity.
 Qed.
 
 (* every path through the modelled code closes what it opened *)
@@ -92,23 +107,79 @@ Proof.
   - inv H. crush_m.
   - inv H. crush_m.
   - inv H. crush_m.
+  - inv H. unfold m_subdirs. destruct (b_stat t p) as [[|]|]; reflexivity.
   - destruct (m_exists t p) as [e h]. inv H. reflexivity.
   - destruct (m_isfile t p) as [e h]. inv H. reflexivity.
   - inv H. crush_m.
   - inv H. crush_m.
   - inv H. crush_m.
-Qed.
-
-Lemma find_entry_in t p e : find_entry t p = Some e -> In (p, e) t.
-Proof.
-  induction t as [|[q x] t IH]; simpl; [discriminate|].
-  destruct (path_eqb q p) eqn:E.
-  - intros H. inversion H; subst. apply path_eqb_eq in E. subst. now left.
-  - intros H. right. auto.
+  - destruct p as [|a p]; [discriminate|]. destruct (m_rm (rm_fuel t) t (a :: p)) as [[[r t'] h]|]; inv H. reflexivity.
+  - destruct (m_clean (rm_fuel t) t p) as [[[r t'] h]|]; inv H. reflexivity.
+  - destruct q as [|d dtr]; [discriminate|]. destruct (is_dir_b t p); [discriminate|].
+    destruct (m_copy (rm_fuel t) t p tr d dtr) as [[[r t'] h]|]; inv H. reflexivity.
+  - destruct q as [|d dtr]; [discriminate|]. destruct (m_copytofile (rm_fuel t) t p tr d dtr) as [[[r t'] h]|]; inv H. reflexivity.
+  - destruct q as [|d dtr]; [discriminate|]. destruct (is_dir_b (m_t (m_mkdir t d)) p); [discriminate|].
+    destruct (m_copytodir (rm_fuel (m_t (m_mkdir t d))) t (P p tr) d dtr) as [[[r t'] h]|]; inv H. reflexivity.
+  - destruct p as [|n s]; [discriminate|]. destruct q as [|d dtr]; [discriminate|].
+    destruct (m_move (rm_fuel t) t (n :: s) tr d dtr) as [[[r t'] h]|]; inv H. reflexivity.
 Qed.
 
 Lemma wf_b_sound t : wf_b t = true -> wf t.
 Proof.
   unfold wf_b. rewrite forallb_forall. intros H p e Hf q Hq.
   apply find_entry_in in Hf. specialize (H _ Hf). simpl in H. rewrite forallb_forall in H. auto.
+Qed.
+
+(* ---------- programs: the refinement needs wf only of the INITIAL tree (R preserves it, ProofsWf.v) ---------- *)
+
+Lemma m_program_refines_r_l cs : forall t rs t' x,
+  wf t -> run_res t cs = Some (rs, t') -> m_run t cs = Some x ->
+  exists o, x = (rs, t', o, o).
+Proof.
+  induction cs as [|c cs IH]; intros t rs t' x W Hr Hm; simpl in *.
+  - inversion Hr; inversion Hm; subst. now exists O.
+  - destruct (exec t c) as [|r t1] eqn:E; [discriminate|].
+    destruct (run_res t1 cs) as [[rs1 t2]|] eqn:R1; [|discriminate]. inversion Hr; subst; clear Hr.
+    destruct (m_exec t c) as [m|] eqn:M; [|discriminate].
+    destruct (m_refines_r_l t c m r t1 W M E) as [Er Et].
+    pose proof (m_handles_balanced_l t c m M) as Hb.
+    destruct (m_run (m_t m) cs) as [[[[rs2 t3] o] cl]|] eqn:M1; [|discriminate]. inversion Hm; subst; clear Hm.
+    destruct (IH (m_t m) rs1 t' _ (exec_preserves_wf_l _ _ _ _ W E) R1 M1) as [o' X]. inversion X; subst.
+    rewrite Hb. now exists (m_closed m + o')%nat.
+Qed.
+
+(* ---------- everything M models, the recursive directory copy included: refinement as finite maps ---------- *)
+From GU Require Import C06.ProofsVfsCopyDir.
+
+Lemma m_all_refines_r_l t c m r t' :
+  wf t -> m_exec_all t c = Some m -> exec t c = Out r t' ->
+  m_r m = r /\ (forall q, find_entry (m_t m) q = find_entry t' q) /\ wf (m_t m) /\ m_opened m = m_closed m.
+Proof.
+  intros W Hm Hr.
+  assert (Base : m_exec t c = Some m -> m_r m = r /\ (forall q, find_entry (m_t m) q = find_entry t' q) /\ wf (m_t m) /\ m_opened m = m_closed m).
+  { intros H. destruct (m_refines_r_l t c m r t' W H Hr) as [E1 E2]. rewrite E2. repeat split; auto.
+    - eapply exec_preserves_wf_l; eauto.
+    - eapply m_handles_balanced_l; eauto. }
+  destruct c; try (apply Base; exact Hm).
+  - (* copy *) destruct p as [|s str]; [apply Base; exact Hm|]. destruct q as [|d dtr]; [apply Base; exact Hm|].
+    destruct (is_dir_b t s) eqn:Sd.
+    + simpl in Hm, Hr. destruct (m_copy_dir_refines t s str d dtr r t' W Sd Hr) as [t'' [h [E [Eq W'']]]].
+      rewrite E in Hm. simpl in Hm. inv Hm. simpl. auto.
+    + apply Base. simpl in *. now rewrite Sd.
+  - (* copytodir *) destruct q as [|d dtr]; [apply Base; exact Hm|]. destruct p as [|s str].
+    + (* the empty source: not found after the MkDir; compared with R directly *)
+      simpl in Hm, Hr. unfold r_copytodir in Hr. unfold m_copytodir in Hm.
+      destruct (through_file t d) eqn:Tf; [discriminate|]. destruct (is_file t d) eqn:Nf; [discriminate|]. simpl in Hr.
+      destruct (m_mkdir3_ok t d W Tf Nf) as [h1 E]. unfold m_mkdir3 in E. inversion E as [[E1 E2 E3]].
+      unfold m_mkdir3 in Hm. rewrite E1, E2 in Hm. simpl in Hm. inv Hm. simpl.
+      unfold r_copy in Hr. simpl in Hr. inv Hr. repeat split; auto. now apply wf_mkdirp.
+    + destruct (is_dir_b (m_t (m_mkdir t d)) s) eqn:Sd.
+      * simpl in Hm, Hr.
+        assert (T1 : m_t (m_mkdir t d) = mkdirp t d).
+        { unfold r_copytodir in Hr. destruct (through_file t d) eqn:Tf; [discriminate|]. destruct (is_file t d) eqn:Nf; [discriminate|].
+          destruct (m_mkdir3_ok t d W Tf Nf) as [h1 E]. unfold m_mkdir3 in E. now inversion E. }
+        rewrite T1 in *.
+        destruct (m_copytodir_dir_refines t s str d dtr r t' W Sd Hr) as [t'' [h [E [Eq W'']]]].
+        rewrite E in Hm. simpl in Hm. inv Hm. simpl. auto.
+      * apply Base. simpl in *. now rewrite Sd.
 Qed.
